@@ -55,6 +55,18 @@ V_RECODE = [
 ]
 
 
+# constructor FUNCTIONS (a variant built by a call instead of an aggregate): anyhow::Ok(x), Ok / Some / Err used as fn items
+V_CTOR = [(re.compile(r'^anyhow::Ok(::<.*>)?$|Result::<.*>::Ok$'), 'Result::Ok'), (re.compile(r'Result::<.*>::Err$'), 'Result::Err'),
+          (re.compile(r'Option::<.*>::Some$'), 'Option::Some')]
+
+
+def undecided_weak(ctx, rule, template, site, why, weak_ok, fn='', weak_detail=''):
+    """the precise instance is undecided; the weaker clause that still holds is DECIDED under <rule>/weak, so that the floor of the
+    family counts one decided instance either way"""
+    ctx.undecided(rule, template, site, why)
+    ctx.check(weak_ok, rule + '/weak', template, fn, weak_detail or ('weaker clause of %s does not hold' % rule), site)
+
+
 def reach_v(body, starts, env0=None, stop=(), forced=None, hits=None, fvals=None):
     """blocks reachable from `starts` (list of bb) when the locals in env0 hold the given values
     ({local: True/False | 'Result::Err' | ...}); switches on a known bool / a known discriminant follow
@@ -108,6 +120,8 @@ def reach_v(body, starts, env0=None, stop=(), forced=None, hits=None, fvals=None
                     if isinstance(v0, str): val = V_BRANCH.get(v0)
                 elif T.NOT_CALL.search(nm):
                     if isinstance(v0, bool): val = not v0
+                elif any(rx.search(nm) for rx, _ in V_CTOR):
+                    val = [v for rx, v in V_CTOR if rx.search(nm)][0]
                 elif isinstance(v0, str):
                     for rx, m in V_ADAPT:
                         if rx.search(T.strip_generics_tail(nm)) or rx.search(nm):
@@ -595,6 +609,71 @@ def resolve_ref_local(body, pl):
     return None
 
 
+def used_of_objective(a):
+    """slice of the set A in `A ⊆ binary ids`: the ids used by the OBJECTIVE and by nothing else (Instance::used_decision_variable_ids
+    also collects the ids of active and removed constraints — a superset that refuses instances the property admits)"""
+    return a.has_call(r'used_decision_variable_ids') and a.has_field(INST, 'objective') and not a.has_field(INST, 'constraints') and not a.has_field(INST, 'removed_constraints')
+
+
+class BodyView:
+    """a body with some Ok-exits left out of scope (everything else is the body itself)"""
+    def __init__(self, body, drop_ok):
+        self._b = body; self._drop = frozenset(drop_ok)
+
+    def __getattr__(self, n): return getattr(self._b, n)
+
+    def strict_ok_exits(self): return self._b.strict_ok_exits() - self._drop
+
+    def ok_exits(self): return self._b.ok_exits() - self._drop
+
+    def ret_assignments(self): return [x for x in self._b.ret_assignments() if x[0] not in self._drop]
+
+
+def is_map_of(keyty):
+    return lambda c: bool(re.search(r"(BTreeMap|btree_map::(Entry|OccupiedEntry|VacantEntry))::<('_, )?sorted_ids::%s, f64>" % keyty, c.name))
+
+
+def option_field_sides(body, adt, field):
+    """OPTION-TEST idioms on a field: `match x.f { None => .. }` / `let Some(v) = &x.f else { .. }` / `if x.f.is_none()` / `is_some()`.
+    Returns [(bb, target when Some, target when None)]."""
+    out = list(option_field_tests(body, adt, field))
+    for c in body.calls:
+        if c.item in ('is_none', 'is_some') and 'Option' in c.name and c.args and c.args[0]['k'] in ('copy', 'move') and not c.dst['p']:
+            fs = T.access_path(body, c.args[0])[0]
+            if not fs or fs[-1][1] != field or not (fs[-1][0] == adt or fs[-1][0].endswith('::' + adt)): continue
+            for sb, neg in T.bool_flow(body, c.dst['l']):
+                t, f = T.switch_sides(body, sb, neg)
+                if t is None or f is None: continue
+                out.append((sb, f, t) if c.item == 'is_none' else (sb, t, f))
+    return out
+
+
+def trivial_exits(ctx, body, is_map, qubo):
+    """(Ok-exits that are the trivial case done right, all Ok-exits taken only when Instance.objective is None)"""
+    cand = set(); good = set()
+    oks = body.strict_ok_exits()
+    for sb, some_t, none_t in option_field_sides(body, INST, 'objective'):
+        rn = reach_v(body, [none_t]); rs = reach_v(body, [some_t])
+        cand |= (rn & oks) - rs
+    rets = {bi: st for bi, k, st in body.ret_assignments() if k == 'ok'}
+    for e in cand:
+        st = rets.get(e)
+        if st is None: continue
+        sl_ = ctx.S.slice_operand(body, st['rv']['ops'][0])
+        calls = [c for c in sl_.call_objs]
+        fresh = any(is_map(c) and c.item in ('new', 'default') for c in calls) and all((is_map(c) and c.item in ('new', 'default')) for c in calls)
+        zero = True
+        if qubo:
+            zero = False                      # the pair built for this exit: (fresh map, 0.0)
+            for l in sl_.locals:
+                d = single_def(body, l)
+                if d and d[0] == 'stmt' and d[2]['rv']['k'] == 'agg' and d[2]['rv']['adt'] == 'tuple' and len(d[2]['rv']['ops']) == 2:
+                    k = const_operand(body, d[2]['rv']['ops'][1])
+                    zero = k is not None and T.f64_const(k['v']) == 0.0
+        if fresh and zero: good.add(e)
+    return good, cand
+
+
 # =============================================================================================
 # the two exporters
 # =============================================================================================
@@ -610,16 +689,20 @@ def export_rules(ctx, name, keyty, qubo):
     sense = ctx.F.adt('v1::instance::Sense')
     allowed = {v['name'] for v in sense['variants']} - {'Maximize'} if sense else set()
     enum_guard(ctx, R + '/guard/not-maximize', body, 'v1::instance::Sense', allowed, 'sense() != Maximize', src_need=lambda s: s.has_field(INST, 'sense'))
-    subset_guard(ctx, R + '/guard/only-binaries', body,
-                 lambda a: a.has_call(r'used_decision_variable_ids') and a.has_field(INST, 'objective'),
-                 lambda b: b.has_call(r'impl v1::Instance>::binary_ids') and not b.has_field(INST, 'objective'), 'used ids ⊆ binary ids')
     binary_ids_rules(ctx, R)
+    # ---- TRIVIAL CASE short-cut: an Ok-exit taken only when Instance.objective is None (the zero function: no terms, no used ids)
+    #      must hand back a fresh empty map (and a zero offset).  Such exits are then outside the scope of the clauses about the terms
+    #      (non-binary guard, term loop, result = accumulated map); the constraints / sense guards above were decided with them included.
+    triv, cand = trivial_exits(ctx, body, is_map_of(keyty), qubo)
+    if cand:
+        ctx.check(triv == cand, R + '/result/trivial-empty', 'T-CARRY', body.name, 'an Ok-exit for a missing objective does not return an empty result', body.site(min(cand - triv)) if cand - triv else body.site())
+    if triv: body = BodyView(body, triv)
     # ---- no other refusal: assume NONE of the stated refusal conditions holds — constraints empty, sense = V for every V != Maximize,
     #      used ids ⊆ binary ids, (QUBO) every conversion of a term's ids into a pair succeeds — wherever the body inspects them
     #      (all idiom tables above).  Then no Err-exit may be reachable: the export must succeed on every such instance.
     vals = {(bb, l): emp for l, bb, emp, recv in emptiness_tests(body, on_constraints)}
     vals.update(subset_assumptions(ctx, body,
-                                   lambda a: a.has_call(r'used_decision_variable_ids') and a.has_field(INST, 'objective'),
+                                   used_of_objective,
                                    lambda b: b.has_call(r'impl v1::Instance>::binary_ids') and not b.has_field(INST, 'objective')))
     if qubo:
         for c in body.calls:
@@ -632,6 +715,9 @@ def export_rules(ctx, name, keyty, qubo):
     ctx.check(not extra, R + '/guard/only-stated-refusals', 'T-GUARD', body.name,
               'the export is refused although no active constraint remains, the sense is not Maximize, only binary variables are used%s: Err-exit at %s'
               % (' and every term has at most two distinct variables' if qubo else '', [body.site(b) for b in sorted(extra)][:3]), body.site(min(extra)) if extra else body.site())
+    subset_guard(ctx, R + '/guard/only-binaries', body,
+                 used_of_objective,
+                 lambda b: b.has_call(r'impl v1::Instance>::binary_ids') and not b.has_field(INST, 'objective'), 'used ids ⊆ binary ids')
     # ---- the term loop: a loop over the objective's (ids, coefficient) items that writes the map
     is_map = lambda c: bool(re.search(r"(BTreeMap|btree_map::(Entry|OccupiedEntry|VacantEntry))::<('_, )?sorted_ids::%s, f64>" % keyty, c.name))
     def term_loop(lo):
@@ -849,7 +935,7 @@ def export_rules(ctx, name, keyty, qubo):
                     if not selfop or not other or not from_item(sl(other[0])): continue
                     if not must_pass_v(body, empty_bb, {header}, {bi}): continue
                     okc.append((acc, bi)); via.add(empty_bb)
-        if okc: constant_rules(ctx, R, body, okc[0][0], okc[0][1])
+        if okc: constant_rules(ctx, R, body, okc[0][1], nextc)
         ctx.check(bool(okc), R + '/constant/empty-ids', 'T-BRANCHFX', body.name, 'terms with no ids are not accumulated into the offset', body.site())
     ctx.counters['cfg_paths'] += 1
     lost = None if must_pass_v(body, some_bb, {header}, via) else nextc.bb
@@ -883,30 +969,84 @@ def plain_source(body, o, depth=8):
     return chain
 
 
-def constant_rules(ctx, R, body, acc, add_bb):
-    """the QUBO offset: starts at 0, only grows by the constant terms, is returned as it is"""
-    inits = []
-    for k, bi, d in body.defs_of(acc):
-        if k == 'stmt' and not d['dst']['p'] and d['rv']['k'] == 'use' and d['rv']['ops'][0]['k'] == 'const': inits.append(T.f64_const(d['rv']['ops'][0]['v']))
-        elif k == 'stmt' and d['rv']['k'] == 'bin' and d['rv']['op'] == 'Add': pass
-        else: inits.append(None)
-    ctx.check(inits == [0.0], R + '/constant/starts-at-zero', 'T-CONST', body.name, 'the offset accumulator is initialised with %s' % inits, body.site(add_bb))
-    notin = []; notplain = []; rets = [(bi, r) for bi, kind, r in body.ret_assignments() if kind == 'ok']
-    for bi, r in rets:
-        s = ctx.S.slice_operand(body, r['rv']['ops'][0])
-        if acc not in s.locals: notin.append(bi)
-        plain = False
-        op0 = r['rv']['ops'][0]
-        if op0['k'] in ('copy', 'move'):
-            for l in plain_source(body, op0) or ():
-                d2 = single_def(body, l)
-                if d2 and d2[0] == 'stmt' and d2[2]['rv']['k'] == 'agg' and d2[2]['rv']['adt'] == 'tuple':
-                    for o in d2[2]['rv']['ops']:
-                        if o['k'] in ('copy', 'move') and body.locals[o['pl']['l']] == 'f64':
-                            plain = acc in (plain_source(body, o) or ())
-        if not plain: notplain.append(bi)
-    ctx.check(bool(rets) and not notin, R + '/constant/returned', 'T-CARRY', body.name, 'the accumulated constant is not part of the result', body.site((notin or [add_bb])[0]))
-    ctx.check(bool(rets) and not notplain, R + '/constant/returned-unchanged', 'T-CARRY', body.name, 'the returned offset is not the accumulator itself', body.site((notplain or [add_bb])[0]))
+OKISH = ('Ok', 'Some', 'Continue')
+
+
+def value_web(body, start_local, start_stack, is_increment, max_nodes=4000):
+    """Where does a scalar come from, following pure CARRIES backwards through every definition: copies, references, tuples and
+    success variants built and taken apart again (`(a, b)` .. `.1`, `Ok(x)` .. `as Ok.0`, Try::branch, anyhow::Ok(..)), loop state
+    threaded through a fold accumulator, writes through `&mut` captures — and through accumulating additions `x = x' + inc` whose
+    increment satisfies is_increment (followed on the other operand).  Returns (consts, add sites, other origins)."""
+    norm = lambda p: [('f', q['f']) if 'f' in q else ('dc', q['dc']) for q in p if isinstance(q, dict) and ('f' in q or 'dc' in q)]
+    consts = set(); adds = set(); others = []
+    seen = set(); work = [(start_local, tuple(start_stack))]
+    def push(o, stack):
+        if o['k'] == 'const':
+            if not stack: consts.add(o['v'])
+            else: others.append('const under projection')
+        elif o['k'] in ('copy', 'move'): work.append((o['pl']['l'], tuple(norm(o['pl']['p'])) + tuple(stack)))
+        else: others.append('?')
+    # writes through references: (*r) = rv  counts as a definition of the local r points to
+    ref_writes = {}
+    for bi, st in body.stmts():
+        d = st['dst']
+        if d['p'] and d['p'][0] == '*':
+            tgt = resolve_ref_local(body, {'l': d['l'], 'p': ['*']})
+            if tgt is not None: ref_writes.setdefault(tgt, []).append((bi, st, norm(d['p'])))
+    while work:
+        l, stack = work.pop()
+        if (l, stack) in seen: continue
+        seen.add((l, stack))
+        if len(seen) > max_nodes: others.append('too many nodes'); break
+        if 1 <= l <= body.argc: others.append('parameter _%d' % l); continue
+        defs = [(k, bi, d, norm(d['dst']['p']) if k == 'stmt' else []) for k, bi, d in body.defs_of(l)]
+        defs += [('stmt', bi, st, dp) for bi, st, dp in ref_writes.get(l, [])]
+        if not defs: others.append('undefined _%d' % l)
+        for k, bi, d, dproj in defs:
+            st_ = list(stack)
+            if dproj:
+                if st_[:len(dproj)] != dproj: continue          # a write to another part of the value
+                st_ = st_[len(dproj):]
+            if k == 'call':
+                nm = d['r'] or d['f']; a0 = d['args'][0] if d['args'] else None
+                if 'FromResidual' in nm and nm.endswith('from_residual'): continue                  # the error variant: not on a success projection
+                if T.TRY_BRANCH.search(nm) and st_[:1] == [('dc', 'Continue')] and a0 is not None: push(a0, [('dc', 'OKISH')] + st_[1:]); continue
+                if any(rx.search(nm) for rx, v in V_CTOR if v != 'Result::Err') and st_[:2] and st_[0][0] == 'dc' and st_[0][1] in OKISH + ('OKISH',) and a0 is not None:
+                    push(a0, st_[2:]); continue
+                if T.TRANSPARENT.search(T.strip_generics_tail(nm)) and a0 is not None and not st_: push(a0, st_); continue
+                others.append('call ' + (d.get('ri') or {}).get('item', '?')); continue
+            rv = d['rv']; kk = rv['k']
+            if kk == 'use': push(rv['ops'][0], st_)
+            elif kk == 'ref': push({'k': 'copy', 'pl': rv['pl']}, st_)
+            elif kk == 'agg' and rv['adt'] == 'tuple':
+                if st_ and st_[0][0] == 'f' and st_[0][1].isdigit() and int(st_[0][1]) < len(rv['ops']): push(rv['ops'][int(st_[0][1])], st_[1:])
+                else: others.append('whole tuple')
+            elif kk == 'agg' and rv['adt'].split('::')[-1] in OKISH + ('Err', 'None', 'Break'):
+                name = rv['adt'].split('::')[-1]
+                if st_[:1] and st_[0][0] == 'dc':
+                    if name in OKISH and st_[0][1] in (name, 'OKISH') and len(st_) >= 2 and rv['ops']: push(rv['ops'][0], st_[2:])
+                    # another variant than the one projected: not on this path
+                else: others.append('whole ' + name)
+            elif kk == 'bin' and rv['op'] == 'Add' and rv.get('ty') == 'f64' and not st_:
+                a, b = rv['ops']
+                ia, ib = is_increment(a), is_increment(b)
+                if ia != ib:
+                    adds.add(bi); push(b if ia else a, [])
+                else: others.append('Add of two %s operands' % ('increment' if ia else 'non-increment'))
+            elif kk == 'cast': push(rv['ops'][0], st_)
+            else: others.append(kk + (' ' + rv.get('op', '') if kk in ('bin', 'un') else ''))
+    return consts, adds, others
+
+
+def constant_rules(ctx, R, body, add_bb, nextc):
+    """the QUBO offset (component 1 of the returned pair), followed backwards from the Ok-result through every carry:
+    it starts at 0, only grows by the coefficients of the constant terms, and is returned as it is"""
+    consts, adds, others = value_web(body, 0, [('dc', 'Ok'), ('f', '0'), ('f', '1')], lambda o: rooted_in(body, o, lambda c: c is nextc))      # increment = comes out of the loop item by its unique definitions
+    ctx.counters['slices'] += 1
+    vals = sorted({T.f64_const(v) if T.f64_const(v) is not None else v for v in consts}, key=str)
+    ctx.check(vals == [0.0], R + '/constant/starts-at-zero', 'T-CONST', body.name, 'the offset accumulator is initialised with %s' % vals, body.site(add_bb))
+    ctx.check(add_bb in adds, R + '/constant/returned', 'T-CARRY', body.name, 'the accumulated constant is not part of the result', body.site(add_bb))
+    ctx.check(not others, R + '/constant/returned-unchanged', 'T-CARRY', body.name, 'the returned offset is not the accumulator itself: %s' % sorted(set(others))[:4], body.site(add_bb))
 
 
 def binary_ids_rules(ctx, R):
@@ -979,10 +1119,16 @@ class PairShape:
                 c = [y for y in b.calls if y.bb == bi][0]
                 a0 = c.args[0] if c.args else None
                 recv_ok = a0 is not None and a0['k'] in ('copy', 'move') and self.from_root(a0['pl']['l'])
-                if c.item in ('first', 'last') and recv_ok and re.search(r'slice::<impl \[|Vec::<', c.name): return ('opt', ('s', 0) if c.item == 'first' else ('e', 0))
+                # first()/last() of the id sequence: slice / Vec, or the BTreeSet the ids live in (iteration order = sorted order)
+                if c.item in ('first', 'last') and recv_ok and re.search(r'slice::<impl \[|Vec::<|BTreeSet::<', c.name): return ('opt', ('s', 0) if c.item == 'first' else ('e', 0))
                 if c.item == 'get' and recv_ok and len(c.args) == 2 and usize_const(const_operand(b, c.args[1]) or {'k': ''}) is not None:
                     return ('opt', ('s', usize_const(const_operand(b, c.args[1]))))
                 if c.item == 'len' and recv_ok: return ('len',)
+                # ORDER idiom: a.min(b) / a.max(b) / std::cmp::min(a, b) of two elements
+                if c.item in ('min', 'max') and len(c.args) == 2 and re.search(r'cmp::Ord>::(min|max)$|std::cmp::(min|max)(::<.*>)?$', c.name):
+                    rs = [self.resolve(a['pl'], depth - 1) if a['k'] in ('copy', 'move') else None for a in c.args]
+                    if all(r and r[0] in ('elem', 'opt') for r in rs): return ('minmax', c.item, frozenset([rs[0][1], rs[1][1]]))
+                    return None
                 if c.item in ('index', 'index_mut') and recv_ok and len(c.args) == 2:
                     k = const_operand(b, c.args[1])
                     if k is not None and usize_const(k) is not None: return ('elem', ('s', usize_const(k)))
@@ -1205,6 +1351,10 @@ def canonical_pair_clauses(ctx, b, src_sorted, src_dedup):
     for bi, st, lens, facts in pairs:
         ops = st['rv']['ops']
         rs = [sh.resolve(o['pl']) if o['k'] in ('copy', 'move') else None for o in ops]
+        if len(rs) == 2 and all(r and r[0] == 'minmax' for r in rs):
+            # (min(x, y), max(x, y)) of the same two elements is ordered by construction
+            if rs[0][1] == 'min' and rs[1][1] == 'max' and rs[0][2] == rs[1][2]: continue
+            bad.append((bi, rs[0][1], rs[1][1], sorted(lens))); continue
         if len(rs) != 2 or not all(r and r[0] in ('elem', 'opt') for r in rs):
             unres.append(bi); continue
         A, B = rs[0][1], rs[1][1]
@@ -1242,13 +1392,20 @@ def pair_rules(ctx):
         clauses = canonical_pair_clauses(ctx, fb, ssorted, sdedup)
         if short == primary:
             for leaf, tmpl, verdict, detail, site in clauses:
-                if verdict == 'undecided': ctx.undecided(R + '/' + leaf, tmpl, site, detail)
+                if verdict == 'undecided' and leaf == 'ordered':
+                    # order not recognisable: the weaker clauses (from-ids, sorted) are decided and cover it
+                    undecided_weak(ctx, R + '/' + leaf, tmpl, site, detail, not any(v == 'bad' for l2, _, v, _, _ in clauses if l2 in ('from-ids', 'sorted')), fb.name, 'a weaker clause of the canonical pair fails')
+                elif verdict == 'undecided':
+                    # an unrecognised LENGTH test has no weaker clause that would catch "more than two ids accepted": no decided twin,
+                    # the family floor reports it (fail closed)
+                    ctx.undecided(R + '/' + leaf, tmpl, site, detail)
                 else: ctx.check(verdict == 'ok', R + '/' + leaf, tmpl, fb.name, detail, site)
         else:
             badc = [(leaf, detail) for leaf, tmpl, verdict, detail, site in clauses if verdict == 'bad']
             und = [(leaf, detail) for leaf, tmpl, verdict, detail, site in clauses if verdict == 'undecided']
             if badc: ctx.bad(R + '/delegates/' + short, 'T-DELEG', fb.name, 'neither delegates to a canonical conversion nor is canonical itself: ' + '; '.join('%s: %s' % x for x in badc), fb.site())
-            elif und: ctx.undecided(R + '/delegates/' + short, 'T-DELEG', fb.site(), '; '.join('%s: %s' % x for x in und))
+            elif und and all(l2 == 'ordered' for l2, _ in und): undecided_weak(ctx, R + '/delegates/' + short, 'T-DELEG', fb.site(), '; '.join('%s: %s' % x for x in und), True, fb.name)
+            elif und: ctx.undecided(R + '/delegates/' + short, 'T-DELEG', fb.site(), '; '.join('%s: %s' % x for x in und))      # lengths unknown: fail closed through the floor
             else: ctx.ok(R + '/delegates/' + short, 'T-DELEG', fb.site(), how='canonical by itself')
     # crate-wide: the pair / set keys are only constructed inside their own impls
     outside = []
